@@ -16,6 +16,9 @@ SIG = list("\"$'()/\\:;JKLkMmWwNOSTtVXZ[]_^`~ijls{}")
 assert len(SIG) == 37 and len(set(SIG)) == 37
 ACC_SUFFIX_SIGS = set('XZij')          # also readable as accidental-display suffix: only on cells without accidental
 REST_SIG = list("();X'{}")
+# multi-character signifier units of the grammar (elided slurs, inverted mordent with tone).  Outside the canonicity
+# claim of C01 (they contain '&' / combine), but inside the grammar: used where content conservation is checked (C03).
+SIG_EXT = ['&(', '&&(', '&)', '&&)', 'Ww']
 DISPLAY = ['x', 'X', 'i', 'I', 'j', 'Z', 'y', 'yy', 'Y', 'YY']
 NUMS = ['1', '2', '4', '8', '16', '32', '64', '0', '00', '3', '6', '12', '24', '4%3', '3%2', '16%5']
 LET = 'abcdefg'
@@ -51,7 +54,9 @@ def accidentals(draw, wide=False, suffix=True):
 
 
 @st.composite
-def notes(draw, acc=True, sigs=True, grace=True, optional_dur=True, sigpool=None):
+def notes(draw, acc=True, sigs=True, grace=True, optional_dur=True, sigpool=None, ext=False):
+    if ext and sigpool is None:
+        sigpool = SIG + SIG_EXT + SIG_EXT
     n = {'dur': draw(durations(grace=grace, optional=optional_dur)), 'p': draw(pitches()),
          'acc': draw(accidentals()) if acc else '',
          'sigs': draw(st.lists(st.sampled_from(sigpool), max_size=4) if sigpool else sig_lists) if sigs else []}
@@ -70,9 +75,10 @@ def constrain_cell(ns, rule_iv=True):
     allsigs = [s for n in ns for s in n['sigs']]
     dropw = 'W' in allsigs and 'w' in allsigs
     hasrest = rule_iv and len(ns) > 1 and any(n['p'] == 'r' for n in ns)
+    dropboth = 'Ww' in allsigs
     for n in ns:
         n['sigs'] = [s for s in n['sigs']
-                     if not (anyacc and s in ACC_SUFFIX_SIGS) and not (dropw and s == 'w')
+                     if not (anyacc and s in ACC_SUFFIX_SIGS) and not (dropw and s == 'w') and not (dropboth and s in ('W', 'w'))
                      and not (hasrest and s not in REST_SIG)]
     return ns
 
@@ -121,12 +127,13 @@ def note_cell_from(ns, layouts_):
 
 
 @st.composite
-def kern_data_cells(draw, chords=True, acc=True, sigs=True, grace=True, rest_in_chord=True, null_weight=2, rule_iv=True):
+def kern_data_cells(draw, chords=True, acc=True, sigs=True, grace=True, rest_in_chord=True, null_weight=2, rule_iv=True,
+                    ext=False):
     x = draw(st.integers(0, 11))
     if x < null_weight:
         return null_cell()
     if x < 7 or not chords and x >= 9:
-        ns = [draw(notes(acc=acc, sigs=sigs, grace=grace))]
+        ns = [draw(notes(acc=acc, sigs=sigs, grace=grace, ext=ext))]
     elif x < 9:
         ns = [draw(rests(sigs=sigs))]
     else:
@@ -136,7 +143,7 @@ def kern_data_cells(draw, chords=True, acc=True, sigs=True, grace=True, rest_in_
             if rest_in_chord and draw(st.integers(0, 6)) == 0:
                 ns.append(draw(rests(sigs=sigs)))
             else:
-                ns.append(draw(notes(acc=acc, sigs=sigs, grace=grace, optional_dur=False)))
+                ns.append(draw(notes(acc=acc, sigs=sigs, grace=grace, optional_dur=False, ext=ext)))
     constrain_cell(ns, rule_iv=rule_iv)
     lays = [draw(layouts(n)) for n in ns]
     return note_cell_from(ns, lays)
